@@ -21,7 +21,8 @@ func (vAddr) String() string  { return "verif" }
 type vTransport struct {
 	in      []byte // bytes the client sends
 	rpos    int
-	chunked bool  // Read returns a nondeterministic 1..min(len(b),avail) bytes
+	chunked bool  // Read returns a nondeterministic 1, 2 or all available bytes
+	chunk   int   // if > 0: Read returns at most this many bytes
 	endErr  error // error reported at end of input (default io.EOF)
 
 	out         []byte // everything written to the client
@@ -58,8 +59,17 @@ func (t *vTransport) Read(b []byte) (int, error) {
 	if n > len(b) {
 		n = len(b)
 	}
+	if t.chunk > 0 && n > t.chunk {
+		n = t.chunk
+	}
 	if t.chunked && n > 1 {
-		n = vInt(1, n)
+		// chunk sizes: one byte, two bytes, or everything available
+		switch vInt(0, 2) {
+		case 0:
+			n = 1
+		case 1:
+			n = 2
+		}
 	}
 	copy(b, t.in[t.rpos:t.rpos+n])
 	t.rpos += n
